@@ -54,6 +54,10 @@ func c17(c *an.Ctx) {
 					return ok && regexp.MustCompile(si).MatchString(f.Canon(be))
 				}))
 				_ = cmp
+				// openGemini keeps entries below the snapshot index on disk so that a lagging member
+				// can catch up from the log: "compacted" is answered only when the entry files do not
+				// have the index any more
+				f.Guarded(r, f.Find(retErr(comp, 1)), "ErrCompacted only when the entry files do not have the index", an.AtomLike(`^(nil==recv\.entryLog\.Term\(p0\)#1|recv\.entryLog\.Term\(p0\)#1==nil)$`, false))
 			}
 		}
 		if f := fn(r, RL+":RaftDiskStorage.LastIndex"); f != nil {
@@ -309,6 +313,43 @@ func reopenKeepsSnapshotIndex(c *an.Ctx, id string) {
 			if !okSnap {
 				r.Fail(f.Name+": replay range", c.P.Pos(s.Node.Pos()), "replay no longer starts at the snapshot index (sp.Metadata.Index)")
 			}
+			// the upper bound of the half-open range is an exclusive bound: commit+1 (or another
+			// index+1), never a bare inclusive index such as the last index of the log
+			hiExprs := []ast.Expr{s.Node.(*ast.CallExpr).Args[1]}
+			if hid, ok := ast.Unparen(hiExprs[0]).(*ast.Ident); ok {
+				if hv, ok := f.Info.Uses[hid].(*types.Var); ok {
+					var rhs []ast.Expr
+					ast.Inspect(f.Body, func(m ast.Node) bool {
+						as, ok := m.(*ast.AssignStmt)
+						if !ok || len(as.Lhs) != len(as.Rhs) {
+							return true
+						}
+						for i, l := range as.Lhs {
+							if id, ok := l.(*ast.Ident); ok && (f.Info.Defs[id] == hv || f.Info.Uses[id] == hv) {
+								rhs = append(rhs, as.Rhs[i])
+							}
+						}
+						return true
+					})
+					if len(rhs) > 0 {
+						hiExprs = rhs
+					}
+				}
+			}
+			for _, e := range hiExprs {
+				be, ok := ast.Unparen(e).(*ast.BinaryExpr)
+				plusOne := false
+				if ok && be.Op.String() == "+" {
+					for _, side := range []ast.Expr{be.X, be.Y} {
+						if tv, ok := f.Info.Types[side]; ok && tv.Value != nil && tv.Value.ExactString() == "1" {
+							plusOne = true
+						}
+					}
+				}
+				if !plusOne {
+					r.Fail(f.Name+": replay upper bound "+types.ExprString(e), c.P.Pos(e.Pos()), "the upper bound of the replay range Entries(lo, hi) is set to %s: hi is exclusive (commit+1); an inclusive index there leaves the last committed entry out of the replay, and raft never publishes it again", types.ExprString(e))
+				}
+			}
 		}
 		if en.Len() == 0 && !r.Failed() {
 			r.Fail(f.Name+": replay", c.P.Pos(f.Body.Pos()), "replay no longer reads the entries from the store")
@@ -448,4 +489,103 @@ func c17noAliasedCompaction(c *an.Ctx) {
 	}
 	r.AddSites(n)
 	r.Floor(50, "functions of lib/raftlog scanned")
+}
+
+func init() {
+	old := All["C17"].Run
+	All["C17"].Run = func(c *an.Ctx) {
+		old(c)
+		c17storeAlwaysWrites(c)
+		c17rangeCrossesFiles(c)
+	}
+	All["C17"].Rules += " R8 R9"
+	addLevel("C17", "the meta file's store functions report success without writing only for the frozen 'nothing to store' guards (nil / empty hard state, nil / invalid snapshot); the range read moves on to the next entry file at the first unused slot of a file (files rolled by size are not full).")
+}
+
+// c17storeAlwaysWrites — C17.R8.  "The saved hard state and snapshot are returned unchanged":
+// StoreHardState / StoreSnapshot may return nil without having written only when there was
+// nothing to store.  Any other guard in front of the write (a cache of the last written
+// state, a comparison of some fields) makes Save report success for a state that InitialState
+// will not return.
+func c17storeAlwaysWrites(c *an.Ctx) {
+	const RL = "lib/raftlog"
+	r := c.Rule("C17.R8", "K-ORDER+K-GUARD", RL+": StoreHardState / StoreSnapshot return nil without the file write only behind the 'nothing to store' guards")
+	for _, t := range []struct {
+		spec   string
+		exempt []an.AtomPred
+	}{
+		{RL + ":metaFile.StoreHardState", []an.AtomPred{an.AtomLike(`^nil==p0$`, true), an.AtomLike(`^raft\.IsEmptyHardState\(\*p0\)$`, true)}},
+		{RL + ":metaFile.StoreSnapshot", []an.AtomPred{an.AtomLike(`^nil==p0$`, true), an.AtomLike(`^raftlog\.IsValidSnapshot\(\*p0\)$`, false)}},
+	} {
+		f := fn(r, t.spec)
+		if f == nil {
+			continue
+		}
+		w := f.Find(call(r, RL+":FileWrapper.WriteSlice")).WithWrappers()
+		rets := f.Find(an.ReturnsNilErr())
+		r.AddSites(w.Len() + rets.Len())
+		if w.Len() == 0 || rets.Len() == 0 {
+			if !r.Failed() {
+				r.Fail(f.Name+": shape", c.P.Pos(f.Body.Pos()), "expected the WriteSlice of the meta file and a nil return (found %d / %d)", w.Len(), rets.Len())
+			}
+			continue
+		}
+		cutE := f.EdgesImplyingAny(t.exempt...)
+		if len(cutE) == 0 {
+			r.Fail(f.Name+": guards", c.P.Pos(f.Body.Pos()), "the 'nothing to store' guards were not found; conditions present: %s", strings.Join(f.CondAtoms(), " ; "))
+			continue
+		}
+		for _, s := range rets.List {
+			if p := f.FPath([]int{f.G.Entry}, s.V, w.Sync().Vs(), cutE); p != nil {
+				r.Fail(f.Name+": success without the write", c.P.Pos(s.Node.Pos()), "%s can return nil without writing the meta file although there was something to store; path (lines): %s", f.Name, f.DescribePath(p))
+			}
+		}
+	}
+}
+
+// c17rangeCrossesFiles — C17.R9.  Entry files are rolled when the slot table OR the data area is
+// full, so a file can end in unused slots.  The range read must move on to the next file at the
+// first unused slot (unless it already reads the latest file); returning there hands raft a
+// prefix of the requested range with a nil error.
+func c17rangeCrossesFiles(c *an.Ctx) {
+	const RL = "lib/raftlog"
+	r := c.Rule("C17.R9", "K-GUARD", RL+":(*entryLog).allEntries — an unused slot leads to the next entry file (the only return on that path is 'already at the latest file')")
+	f := fn(r, RL+":entryLog.allEntries")
+	if f == nil {
+		return
+	}
+	next := f.Find(call(r, RL+":entryLog.getEntryFile")).Filter("inside the read loop", func(s an.Site) bool { return loopOf(f, s.Node) != nil })
+	// (a) the unused slot sets the slot cursor to the end-of-file value …
+	maxN := obj(r, RL+":maxNumEntries")
+	var offV types.Object
+	setEnd := f.Find(an.MNode("offset = maxNumEntries", func(g *an.Fn, m ast.Node) bool {
+		as, ok := m.(*ast.AssignStmt)
+		if !ok || len(as.Lhs) != 1 || len(as.Rhs) != 1 {
+			return false
+		}
+		id, ok := ast.Unparen(as.Rhs[0]).(*ast.Ident)
+		if !ok || maxN == nil || g.Info.Uses[id] != maxN {
+			return false
+		}
+		if l, ok := as.Lhs[0].(*ast.Ident); ok {
+			offV = g.Info.Uses[l]
+		}
+		return true
+	}))
+	edges := f.GuardEdges(an.AtomLike(`^0==.*getRaftEntry\(.*\)#0\.Index$`, true))
+	if len(edges) > 0 && setEnd.Len() == 0 {
+		r.Fail(f.Name+": unused slot ⇒ slot cursor set to the end of the file", c.P.Pos(f.Body.Pos()), "allEntries tests for an unused slot (Index == 0) but no longer sets the slot cursor to maxNumEntries there: instead of moving on to the next entry file the read ends, and Entries returns a prefix of the requested range with a nil error when a file was rolled by size")
+	} else {
+		f.AfterEdgesMustPass(r, edges, setEnd, "unused slot ⇒ slot cursor set to the end of the file")
+	}
+	// (b) … and the end-of-file value moves on to the next file unless the latest file is being read
+	_ = offV
+	eof := f.GuardEdges(an.AtomLike(`^raftlog\.maxNumEntries<=local\(\w+\)$`, true))
+	if len(eof) == 0 {
+		eof = f.GuardEdges(an.AtomLike(`^local\(\w+\)<raftlog\.maxNumEntries$`, false))
+	}
+	if len(eof) == 0 {
+		r.Note("conditions of allEntries: %s", strings.Join(f.CondAtoms(), " ; "))
+	}
+	f.AfterEdgesMustPass(r, eof, next, "end of a file ⇒ next entry file", an.AtomLike(`^-1==local\(fileIdx\)$`, true))
 }
